@@ -40,7 +40,8 @@ PostWaiters(p) == \A w \in Workers :
                     /\ waiter'[w].on = p.waiters[w].on
                     /\ waiter'[w].box = p.waiters[w].box
                     /\ p.waiters[w].on => waiter'[w].chs = SeqRange(p.waiters[w].chs)
-PostRunning(p) == \A w \in Workers : running'[w] = p.running[w]
+PostRunning(p) == \A w \in Workers : IF AnyRequeueOrder THEN SeqRange(running'[w]) = SeqRange(p.running[w])
+                                                         ELSE running'[w] = p.running[w]
 PostStats(p)   == \A c \in Channels : /\ stats'[c].success = p.stats[c].success
                                       /\ stats'[c].killed = p.stats[c].killed
                                       /\ stats'[c].timeout = p.stats[c].timeout
